@@ -234,9 +234,10 @@ pub struct Layout {
     /// visibility of the struct: 0 `pub`, 1 `pub(crate)`, 2 `pub(super)`
     #[serde(default)]
     pub vis: u8,
-    /// != 0: between the auxiliary types and the struct, a sibling module declares types with the *same names*
+    /// bit 0: between the auxiliary types and the struct, a sibling module declares types with the *same names*
     /// (E0, I0, ...) but other widths. They are never used; a macro that keeps state between invocations keyed
-    /// by bare type name would mix them up.
+    /// by bare type name would mix them up. bit 1: items of the user's own named like companions of the struct
+    /// (`SBuilder`, `SFields`, `SRaw`, ...) in the same module. bit 2: a user module called `core` in scope.
     #[serde(default)]
     pub decoys: u8,
     /// attributes the user puts on the struct and the macro passes through: bit 0 `#[derive(Default)]` (only
@@ -249,6 +250,11 @@ pub struct Layout {
     /// conversions", C08): 1 = `raw_value(self)`, 2 = `raw_value(&self)`
     #[serde(default)]
     pub handwritten: u8,
+    /// != 0: the struct item is produced by a `macro_rules!` wrapper of the user's: the base type arrives as a
+    /// `$base:ty` fragment, every field name as `$f:ident` from the invocation, a literal default as `$d:literal`
+    /// (invocation contexts the macro supports today)
+    #[serde(default)]
+    pub macro_wrap: u8,
 }
 
 pub fn is_native_width(bits: u32) -> bool {
